@@ -122,10 +122,56 @@ func c20Trusts(cfg *tls.Config, ca *world.CA) bool {
 	return ok
 }
 
-func c20TrustSet(cfg *tls.Config) string {
+func c20TrustSet(cfg *tls.Config) string { return c20TrustSetAfter(cfg, "") }
+
+// c20TrustSetAfter probes the three servers. Servers the client accepted at its previous probe (prev) are contacted
+// FIRST - a failed handshake makes crypto/tls drop a cached session, so probing a rejected server first would hide a
+// client that wrongly resumes an old session - and every accepted server is contacted once more at the end so that
+// the client is left holding a session with a server it trusts, as a client in service would be.
+func c20TrustSetAfter(cfg *tls.Config, prev string) string {
+	all := []*world.CA{world.CA1, world.CA2, world.CAX}
+	var order []*world.CA
+	for _, ca := range all {
+		if strings.Contains("+"+prev+"+", "+"+ca.Name[len("verif CA "):]+"+") {
+			order = append(order, ca)
+		}
+	}
+	for _, ca := range all {
+		found := false
+		for _, o := range order {
+			if o == ca {
+				found = true
+			}
+		}
+		if !found {
+			order = append(order, ca)
+		}
+	}
+	ok := map[*world.CA]bool{}
+	fresh := false
+	for _, ca := range order {
+		key := "nil|" + ca.Name
+		if cfg != nil {
+			key = fmt.Sprintf("%p|%v|%s", cfg.RootCAs, cfg.InsecureSkipVerify, ca.Name)
+		}
+		c20HSMu.Lock()
+		_, cached := c20HSCache[key]
+		c20HSMu.Unlock()
+		if !cached {
+			fresh = true
+		}
+		ok[ca] = c20Trusts(cfg, ca)
+	}
+	if fresh {
+		for _, ca := range order {
+			if ok[ca] {
+				_ = world.Handshake(cfg, ca)
+			}
+		}
+	}
 	var s []string
-	for _, ca := range []*world.CA{world.CA1, world.CA2, world.CAX} {
-		if c20Trusts(cfg, ca) {
+	for _, ca := range all {
+		if ok[ca] {
 			s = append(s, ca.Name[len("verif CA "):])
 		}
 	}
@@ -189,6 +235,7 @@ func c20RunConfig(run *ev.Run, c c20Cfg) {
 
 type c20Client struct {
 	Setting string
+	Last    string // trust set at the previous probe
 	Cfg     *tls.Config
 	Loaded  string // file content name at first load of this setting
 	Seen    string // content the setting's watcher has seen (reference)
@@ -295,13 +342,20 @@ func c20Model(run *ev.Run, settings []string) seqx.Model {
 					}
 				}
 			}
+			// the probing connections are part of the history (a client that made connections holds TLS sessions), so
+			// they are made on replay as well; only the reporting depends on live
+			trust := map[*c20Client]string{}
+			for _, c := range s.clients {
+				trust[c] = c20TrustSetAfter(c.Cfg, c.Last)
+				c.Last = trust[c]
+			}
 			if !live {
 				return
 			}
 			run.Class(fmt.Sprintf("%s|%s|clients=%d|content=%s", e.Kind, e.Arg, len(s.clients), s.content))
 			watched := 0
 			for _, c := range s.clients {
-				got := c20TrustSet(c.Cfg)
+				got := trust[c]
 				st := c20Settings[c.Setting]
 				if st.Interval != "unset" && st.Interval != "0" {
 					watched++
@@ -330,7 +384,7 @@ func c20Model(run *ev.Run, settings []string) seqx.Model {
 			s := sy.(*c20Sys)
 			var parts []string
 			for _, c := range s.clients {
-				parts = append(parts, fmt.Sprintf("%s:trust=%s:seen=%s", c.Setting, c20TrustSet(c.Cfg), c.Seen))
+				parts = append(parts, fmt.Sprintf("%s:trust=%s:seen=%s", c.Setting, c.Last, c.Seen))
 			}
 			sort.Strings(parts)
 			h := ""
